@@ -160,7 +160,9 @@ static void audit_all(const char *when)
 
 static size_t sym_nm(uint64_t sym, uint64_t raw, size_t sz, const char **ctx)
 {
-    switch (sym % 12) {
+    switch (sym % 14) {
+    case 12: *ctx = "bytes-2^32"; return (size_t)(((uint64_t)1 << 32) / sz) + (size_t)(raw % 3);
+    case 13: *ctx = "bytes-2^31"; return (size_t)(((uint64_t)1 << 31) / sz) + (size_t)(raw % 3);
     case 0: return 0;
     case 1: return 1;
     case 2: case 3: case 4: case 5: case 6: return (size_t)(1 + raw % 24);
@@ -474,7 +476,7 @@ static void a_gen(prng_t *r, int mode, plan_t *p)
         int kind = x < 22 ? A_ALLOC : x < 32 ? A_SET : x < 62 ? A_SLICE : x < 74 ? A_UNSLICE : x < 86 ? A_RESET : A_RELEASE;
         op_t *o = plan_add(p, kind);
         o->a[0] = prng_below(r, 4); o->a[1] = prng_chance(r, 1, 3) ? o->a[0] : prng_below(r, 4);
-        o->a[2] = (kind == A_ALLOC && !boundary) ? 1 + prng_below(r, 6) : prng_below(r, 24);
+        o->a[2] = (kind == A_ALLOC && !boundary) ? 1 + prng_below(r, 6) : prng_below(r, 28);
         if (mode == 16 && kind == A_ALLOC) o->a[2] = 1 + prng_below(r, 6);
         o->a[3] = prng_below(r, 16); o->a[4] = prng_next(r) >> 8; o->a[5] = prng_next(r) >> 8;
         if (faults && (kind == A_ALLOC || kind == A_SET) && prng_chance(r, 1, 3)) o->a[6] = 1 + prng_below(r, 2);
